@@ -64,6 +64,7 @@ def base_env(out):
     env["RUSTFLAGS"] = "-Zmir-opt-level=0 -Zalways-encode-mir -Awarnings -Coverflow-checks=on -Cdebug-assertions=on"
     env["RUSTC_WORKSPACE_WRAPPER"] = DRIVER
     env["EGFACTS_OUT"] = out
+    env["CARGO_INCREMENTAL"] = "0"  # the incremental cache grows by one session per analysed tree (10 GB seen)
     env.pop("RUSTC_WRAPPER", None)
     return env
 
@@ -79,6 +80,32 @@ def _prune(cfgdir, keep):
     for mt, e in ents[:-max(keep, 1)]:
         if now - mt > 7200:
             shutil.rmtree(os.path.join(cfgdir, e), ignore_errors=True)
+
+
+def trim_target(tgt, cap=2 << 30):
+    """Keep a persistent target directory bounded: every analysed tree (scratch worktrees have their own path, hence
+    their own crate hashes) leaves its own artifacts behind. Above `cap` bytes the workspace members' artifacts and
+    the incremental cache are dropped; the registry dependencies stay."""
+    dbg = os.path.join(tgt, "debug")
+    shutil.rmtree(os.path.join(dbg, "incremental"), ignore_errors=True)
+    deps = os.path.join(dbg, "deps")
+    try:
+        names = os.listdir(deps)
+    except FileNotFoundError:
+        return
+    size = 0
+    for n in names:
+        try:
+            size += os.path.getsize(os.path.join(deps, n))
+        except OSError:
+            pass
+    if size > cap:
+        for n in names:
+            if re.match(r"(lib)?(embedded_graphics|roots|witness|rust_out)", n):
+                try:
+                    os.remove(os.path.join(deps, n))
+                except OSError:
+                    pass
 
 
 def facts_dir(config, sha=None):
@@ -156,6 +183,7 @@ def roots_facts(sha=None):
         tmp_out = tempfile.mkdtemp(prefix="egfacts-out-")
         tgt = os.path.join(WORK, "target", "roots")
         os.makedirs(tgt, exist_ok=True)
+        trim_target(tgt)
         fp = os.path.join(tgt, "debug", ".fingerprint")
         if os.path.isdir(fp):
             for e in os.listdir(fp):
